@@ -35,9 +35,21 @@ def op_sx(op):
     raise ValueError(k)
 
 
+DEFAULT_INDCFG = [False, 4, None]     # TextBlock's own Indentizer(): four spaces, no bullets
+
+
 def c_hist(c, h, ops):
+    # `indent_again` = indent() without argument: the block applies the indentation options it was last given
+    # (indent(ind) = set_indentor(ind).indent()); a block created by `+` starts with the default options again
+    wire, last = [], None
+    for o in ops:
+        if o[0] == 'indent':
+            last = o[1]
+        if o[0] == 'add':
+            last = None
+        wire.append([4, indcfg_sx(last or DEFAULT_INDCFG)] if o[0] == 'indent_again' else op_sx(o))
     return ({'op': 'hist', 'c': c, 'h': h, 'ops': ops},
-            [102, content_sx(c), content_sx(h), [op_sx(o) for o in ops]],
+            [102, content_sx(c), content_sx(h), wire],
             lambda v: [dec_tb(x) for x in v])
 
 
@@ -104,5 +116,7 @@ def c_comment(c, more):
         return {'lines': dss(v[0]), 'r1': ds(v[1]), 'lines_after': dss(v[0]), 'r2': ds(v[1]),
                 'lines_ext': dss(v[2]), 'r3': ds(v[3]), 'in_list': ds(v[4]), 'direct': dss(v[5]),
                 # `+=` is append on the same object (TextGen.iadd = append in the model)
+                # a comment as the whole contents of a namespace: head line, the rendered comment, tail line (or the one-liner)
+                'in_namespace': ('namespace My::Reserved {\n' + ds(v[1]) + '} // namespace My::Reserved\n') if dss(v[0]) else 'namespace My::Reserved {}\n',
                 'iadd_same_object': True, 'iadd_type': 'Comment', 'r3_iadd': ds(v[3]), 'r3_alias': ds(v[3])}
     return ({'op': 'comment', 'c': c, 'more': more}, [108, content_sx(c), more], dec)
